@@ -8,6 +8,8 @@ status).  What is proved here pins the ORDER of effects: parse → creators → 
 re-parse → only then a result.
 -/
 import KlogV.Lemmas.CommandsSafe
+import KlogV.Lemmas.ReportTotal
+import KlogV.Lemmas.Warnings
 namespace KlogV.C05
 
 /-- The file contents after a command: the new contents on success, the old ones otherwise. -/
@@ -58,6 +60,20 @@ theorem command_success_valid (u : UTab) (cfg : Config) (now : Instant) (cmd : C
 theorem command_invalid_input (u : UTab) (cfg : Config) (now : Instant) (cmd : Cmd) (file : Bytes) (es : List GErr)
     (h : parseDoc file = .errors es) : ∀ f', runCmd u cfg now cmd file ≠ .ok f' :=
   KlogV.runCmd_invalid u cfg now cmd file es h
+
+/-- After a successful command klog prints the warnings for the records it has just written — AFTER the
+file is on disk.  That step cannot crash (which would leave a changed file behind an error exit): the
+file parses (above), parsed records carry calendar dates, and for those `CheckForWarnings` completes
+whenever no record's own total overflows (finding D12) and the clock is two days inside the calendar. -/
+theorem success_then_warnings_complete (u : UTab) (cfg : Config) (now : Instant) (cmd : Cmd) (file f' : Bytes)
+    (dis : Disabled) (h : runCmd u cfg now cmd file = .ok f')
+    (hnv : now.date.valid = true)
+    (hnow : (now.date.plusDays (-2)).isSome = true ∧ (now.date.plusDays 2).isSome = true) :
+    ∃ rs bos, parseDoc f' = .records rs bos ∧
+      ((∀ r ∈ rs, sumRes (r.entries.map Entry.minutes) ≠ .panic) → ∃ ws, checkWarnings now dis rs = .ok ws) := by
+  obtain ⟨rs, bos, hp⟩ := KlogV.runCmd_ok_valid u cfg now cmd file f' h
+  exact ⟨rs, bos, hp, fun ht =>
+    KlogV.checkWarnings_no_panic now dis rs hnv hnow (KlogV.parseDoc_dates_valid f' rs bos hp) ht⟩
 
 /-- Non-vacuity: `track` with text that is not an entry fails; with an entry it succeeds. -/
 example : runCmd ⟨fun _ => false, id⟩ {} ⟨⟨2021, 3, 4, true⟩, 12, 0⟩ (.track .default ["foo".toUTF8.toList])
